@@ -38,10 +38,12 @@ pub fn ierr_of(code: u64) -> InterfaceError {
         31 => InterfaceError::SerialError(SerialError::ReadError(std::io::Error::new(std::io::ErrorKind::Other, "x"))),
         32 => InterfaceError::SerialError(SerialError::WriteError(std::io::Error::new(std::io::ErrorKind::Other, "x"))),
         40 => InterfaceError::CanError(CanError::BufferOverrun),
+        99 => InterfaceError::NoPacketReceived,        // only as an answer to try_send_packet (a link that misuses the 'nothing received' value)
         _ => InterfaceError::CanError(CanError::MailboxFull),
     }
 }
 pub const ERR_CODES: [u64; 16] = [10, 11, 12, 13, 14, 15, 20, 21, 22, 23, 24, 30, 31, 32, 40, 41];
+pub const SEND_ERR_CODES: [u64; 17] = [10, 11, 12, 13, 14, 15, 20, 21, 22, 23, 24, 30, 31, 32, 40, 41, 99];
 fn perr_code(e: &ProtocolError) -> u64 { match e { ProtocolError::InterfaceError(i) => 100 + ierr_code(i), ProtocolError::NoSuchHandler => 1, ProtocolError::PacketTimeout => 2 } }
 
 pub enum Gres { Pkt(Packet), None, Err(u64) }
@@ -203,7 +205,7 @@ pub fn gen_pro(r: &mut Rng, thorough: bool, cx: &mut Ctx) {
                     }
                     match r.below(4) { 0 => gets.push(vec![2, r.pick(&ERR_CODES)]), 1 => gets.push(vec![1]), _ => {} }
                     b.push(gets.len() as u64); for g in gets.iter() { push_list(&mut b, g); }
-                    for _ in 0..r.below(2) { b.push(if r.chance(1, 4) { r.pick(&ERR_CODES) } else { 0 }); }
+                    for _ in 0..r.below(2) { b.push(if r.chance(1, 4) { r.pick(&SEND_ERR_CODES) } else { 0 }); }
                 }
                 0 | 1 | 2 => { b.extend_from_slice(&[0, label, r.chance(1, 3) as u64]); label += 1;
                                let ns = if r.chance(1, 4) { r.range(1, 2) } else { 0 }; b.push(ns);
@@ -220,9 +222,9 @@ pub fn gen_pro(r: &mut Rng, thorough: bool, cx: &mut Ctx) {
                                        k => { let a = match k { 2 | 3 => own, 4 => 0xffff, _ => other_addr(r, own) }; g.push(0); let p = small_packet(r, a); show_packet(&p, &mut g); } }
                                    push_list(&mut b, &g);
                                }
-                               for _ in 0..r.below(3) { b.push(if r.chance(1, 4) { r.pick(&ERR_CODES) } else { 0 }); } }
+                               for _ in 0..r.below(3) { b.push(if r.chance(1, 4) { r.pick(&SEND_ERR_CODES) } else { 0 }); } }
                 _ => { b.push(3); let a = match r.below(4) { 0 | 1 => own, 2 => 0xffff, _ => other_addr(r, own) }; let p = small_packet(r, a); show_packet(&p, &mut b);
-                       for _ in 0..r.below(4) { b.push(if r.chance(1, 3) { r.pick(&ERR_CODES) } else { 0 }); } }
+                       for _ in 0..r.below(4) { b.push(if r.chance(1, 3) { r.pick(&SEND_ERR_CODES) } else { 0 }); } }
             }
             push_list(&mut l, &b);
             prev_op = if b[0] >= 2 { Some(b) } else { None };
@@ -304,7 +306,7 @@ pub fn gen_exc(r: &mut Rng, thorough: bool, cx: &mut Ctx) {
             }
             match if long > 0 { 4 * r.below(2) + r.below(2) } else { r.below(6) } { 0 => gets.push(vec![2, r.pick(&ERR_CODES)]), 1 => gets.push(vec![1]), 2 => { let i = r.below(gets.len() as u64 + 1) as usize; gets.insert(i, vec![1]); } 3 => { let i = r.below(gets.len() as u64 + 1) as usize; gets.insert(i, vec![2, r.pick(&ERR_CODES)]); } _ => {} }
             l.push(gets.len() as u64); for g in gets.iter() { push_list(&mut l, g); }
-            for _ in 0..r.below(3) { l.push(if r.chance(1, 4) { r.pick(&ERR_CODES) } else { 0 }); }
+            for _ in 0..r.below(3) { l.push(if r.chance(1, 4) { r.pick(&SEND_ERR_CODES) } else { 0 }); }
             cx.emit(&l);
         }
     }
